@@ -378,8 +378,11 @@ class Decoder:
         self,
         declaration: jelly.RdfNamespaceDeclaration,
     ) -> Any:
-        iri = self.decode_iri(declaration.value)
-        return self.adapter.namespace_declaration(declaration.name, iri)
+        # the adapter converts the IRI string itself (Adapter.namespace_declaration
+        # takes a str), so resolve the IRI without converting it here
+        name = self.names.decode_name_term_index(declaration.value.name_id)
+        prefix = self.prefixes.decode_prefix_term_index(declaration.value.prefix_id)
+        return self.adapter.namespace_declaration(declaration.name, prefix + name)
 
     def decode_graph_start(self, graph_start: jelly.RdfGraphStart) -> Any:
         term = getattr(graph_start, graph_start.WhichOneof("graph"))
